@@ -11,34 +11,49 @@ CLAIMS = {
     'C11': {
         'text': "PARTIAL, structural clauses only - completeness of the recursive, backtracking matcher over all "
                 "programs x derivable patterns is an inductive property of the search and is NOT decided. Decided, by "
-                "abstract execution, are two necessary conditions every derivation step relies on: (R1) any_node_match, "
+                "abstract execution, are six necessary conditions every derivation step relies on: (R1) any_node_match, "
                 "run on a model student tree with a root-level matcher that accepts a chosen set of nodes, tries every "
                 "node as a root and returns exactly the matches that exist, wherever they are (all single nodes and "
-                "several pairs of a 7-node tree); (R2) deep_find_match_Name pairs a ___ or __expr__ placeholder with a "
-                "student node of any of eight kinds in the same position (binding __expr__ to that very node) and "
-                "declines in another position.",
-        'note': _NOTE + "Not decided: sibling windows and youngest-sibling bookkeeping, meta-field matching along the "
-                        "recursion, dropped sibling statements, consistent _var_ renaming - i.e. completeness itself. "
-                        "The placeholder classes themselves are decided under C10.R5.",
-        'technique': 'static analysis: abstract interpretation of any_node_match / deep_find_match_Name on model trees '
-                     'with marker objects (ast only)',
+                "several pairs of an 11-node tree with statements inside statements and inside an except handler); (R2) "
+                "deep_find_match_Name pairs a ___ or __expr__ placeholder with a student node of any of eight kinds in "
+                "the same position (binding __expr__ to that very node) and declines in another position; (R3) one level "
+                "of the sibling search - deep_find_match_generic with the real map_merge, children matched and bindings "
+                "contradicting by table - returns every order-preserving, conflict-free pairing a brute-force "
+                "enumeration finds (all 2x3 match tables, and 3x5 scenarios incl. a first candidate rejected by a "
+                "conflict and two ways of matching one child); (R4) new_merged_map leaves the base map structurally "
+                "unchanged when the candidate contradicts it, for the variable, function, class and expression tables, "
+                "and the next consistent candidate still merges; (R5) pattern and program text reach ast.parse with the "
+                "same syntax tree as given; (R6) shallow_symbol_handler never raises for placeholder-shaped names in "
+                "Name.id, Attribute.attr and arg.arg positions (a program mentioning obj.__dict__ matches itself).",
+        'note': _NOTE + "Not decided: the induction over depth (that the per-level search composes), meta-field "
+                        "matching along the recursion, dropped sibling statements across different bodies, consistent "
+                        "_var_ renaming through every handler - i.e. completeness itself. The placeholder classes "
+                        "themselves are decided under C10.R5. R6 exposed a defect, repaired in pedal 39ceb06.",
+        'technique': 'static analysis: abstract interpretation of any_node_match / deep_find_match_Name / '
+                     'deep_find_match_generic / map_merge / AstMap / shallow_symbol_handler on model trees with marker '
+                     'objects, brute-force enumeration oracle for the one-level sibling search (ast only)',
     },
     'C06': {
         'text': "PARTIAL, structural clauses only - observational equivalence of sandboxed and plain execution is NOT "
                 "decided (it quantifies over run-time values of every program; a differential harness is the right "
-                "tool and a different family). Decided are three necessary conditions whose truth is in the shape of "
+                "tool and a different family). Decided are five necessary conditions whose truth is in the shape of "
                 "pedal's code, each by abstract execution: (R1) the text given to run() reaches compile() unmodified, in "
-                "'exec' mode under its own file name, and is executed in the sandbox's own namespace with __name__ == "
+                "'exec' mode under its own file name, without compiler flags and without inheriting a `from __future__` "
+                "feature of the sandbox module, and is executed in the sandbox's own namespace with __name__ == "
                 "'__main__'; (R2) call() marshals every argument faithfully - _make_temporary/_construct_call are run "
                 "over 31 argument values (floats incl. inf/nan/-0.0, complex, strings with quotes, nested containers, "
                 "range, frozenset, an instructor-side object) and each must be passed as a text that ast.literal_eval "
-                "turns back into an equal value of the same type, or as a temporary bound to the very object; (R3) the "
-                "value handed back is the object stored in the target.",
+                "turns back into an equal value of the same type, or as a temporary bound to the very object - also when "
+                "the same mutable object is passed again after it changed; (R3) the value handed back is the object "
+                "stored in the target; (R4) the line reported for an exception is the raising line of the innermost "
+                "traceback entry for tracebacks 1 to 1500 calls deep; (R5) the buffer standing in for sys.stdout is "
+                "built without initial text or newline translation.",
         'note': _NOTE + "Not decided: everything else the statement says (printed text, globals, exception kind and "
                         "line, return values for arbitrary programs). The claim exists because the marshalling clause "
                         "has a finite, code-visible argument (and exposed a defect: call('f', float('inf'))).",
         'technique': 'static analysis: abstract interpretation of _execute/run/_make_temporary/_construct_call/'
-                     '_handle_result with marker objects; literal round-trip oracle (ast.literal_eval) on the texts '
+                     '_handle_result/_start_mocking/ExpandedTraceback.__init__ with marker objects; syntax check of '
+                     'compile() call sites against the module\'s __future__ imports; literal round-trip oracle (ast.literal_eval) on the texts '
                      'produced (ast only)',
     },
     'C08': {
